@@ -581,6 +581,50 @@ pub fn run(prop: &str, cases: &[String]) -> RunOut {
                 out.stats.nontrivial_case(line);
                 (format!("{} head={}", match &r { None => "panic".to_string(), Some(Ok(x)) => format!("ok {x}"), Some(Err(x)) => e(x) }, hex(&big[..32])), err)
             }
+            "bigrealloc" => {
+                // bigrealloc <k> <extra>: two entries (4 and 3 bytes) at the head of a zeroed buffer of more than 4 GiB, then a
+                // resize of the FIRST one to 2^32 + extra bytes: the room is there, the length is not representable; the call
+                // must fail and leave both entries (the head of the buffer) exactly as they were
+                let k: usize = t[1].parse().unwrap();
+                let extra: usize = t[2].parse().unwrap();
+                let len = (1usize << 32) + extra;
+                let layout = std::alloc::Layout::from_size_align(len + 4096, 16).unwrap();
+                let ptr = unsafe { std::alloc::alloc_zeroed(layout) };
+                if ptr.is_null() {
+                    out.stats.bump("bigrealloc:skipped");
+                    out.push("skipped-no-room".into(), Ok(()));
+                    continue;
+                }
+                struct Big2(*mut u8, std::alloc::Layout);
+                impl Drop for Big2 { fn drop(&mut self) { unsafe { std::alloc::dealloc(self.0, self.1) } } }
+                let _guard = Big2(ptr, layout);
+                let big: &mut [u8] = unsafe { std::slice::from_raw_parts_mut(ptr, len + 4096) };
+                fn setup<const D: u64, const D2: u64>(buf: &mut [u8]) -> Result<(), ProgramError> {
+                    let mut st = TlvStateMut::unpack(buf)?;
+                    st.alloc::<Tag<D>>(4, false)?.0.copy_from_slice(&[0xa1, 0xa2, 0xa3, 0xa4]);
+                    st.alloc::<Tag<D2>>(3, false)?.0.copy_from_slice(&[0xb1, 0xb2, 0xb3]);
+                    Ok(())
+                }
+                fn go2<const D: u64>(buf: &mut [u8], len: usize, first: bool) -> Result<String, ProgramError> {
+                    let mut st = TlvStateMut::unpack(buf)?;
+                    let s = if first { st.realloc_first::<Tag<D>>(len)? } else { st.realloc_with_repetition::<Tag<D>>(len, 0)? };
+                    Ok(format!("{}", s.len()))
+                }
+                // set up on the first 64 bytes only (the walk stops at the zero tag), then resize on the whole buffer
+                let su = match k % 2 { 0 => setup::<{ PALETTE[0] }, { PALETTE[1] }>(&mut big[..64]), _ => setup::<{ PALETTE[4] }, { PALETTE[5] }>(&mut big[..64]) };
+                let before = big[..64].to_vec();
+                let r = guarded(|| match k % 2 { 0 => go2::<{ PALETTE[0] }>(&mut *big, len, extra % 2 == 0), _ => go2::<{ PALETTE[4] }>(&mut *big, len, extra % 2 == 0) });
+                let mut err = None;
+                if su.is_err() { err = Some("setting up two small entries failed".to_string()); }
+                match &r {
+                    None => err = Some("resize panicked".to_string()),
+                    Some(Ok(_)) => err = Some("a resize to a length that does not fit the length field succeeded".to_string()),
+                    Some(Err(_)) => if big[..64] != before[..] || !big[64..4096].iter().all(|&x| x == 0) { err = Some("a failed resize (length not representable) changed the buffer".to_string()) },
+                }
+                out.stats.bump("bigrealloc");
+                out.stats.nontrivial_case(line);
+                (format!("{} head={}", match &r { None => "panic".to_string(), Some(Ok(x)) => format!("ok {x}"), Some(Err(x)) => e(x) }, hex(&big[..64])), err)
+            }
             "B" => {
                 // B <case> tlv <zero|raw> <hex initial buffer>
                 let b = unhex(t[4]);
@@ -657,6 +701,10 @@ pub fn generate_c02(tier: &str, rng: &mut Rng) -> Vec<String> {
         bufs.push(b);
     }
     let mut v = vec![];
+    // entries of 64 KiB .. 16 MiB (around 2^16, 2^24 and the 10 MiB account limit): allocated, resized, walked past, looked up
+    for (k, (a, b)) in [(70_000usize, 66_000usize), (66_000, 16_777_300), (10_485_760, 10_485_761), (10_485_761, 12_000_000), (12_000_000, 10_485_759)].iter().enumerate() {
+        v.push(format!("bigentry {k} {a} {b}"));
+    }
     for b in bufs {
         let h = hex(&b);
         let k = if thorough { 4 } else { 3 };
@@ -682,6 +730,7 @@ pub fn generate_hist(prop: &str, tier: &str, rng: &mut Rng) -> Vec<String> {
     if prop == "C04" {
         // the "length not representable" failure with enough room needs a buffer of more than 4 GiB
         for extra in [0usize, 1, 4096] { v.push(format!("bigalloc {} {extra}", rng.below(8))); }
+        for (k, extra) in [(0usize, 0usize), (1, 1), (0, 37)] { v.push(format!("bigrealloc {k} {extra}")); }
     }
     let n_hist = if thorough { 30_000 } else { 300 };
     let max_ops = if thorough { 60 } else { 30 };
